@@ -34,7 +34,7 @@ def one(sid):
                 fired[pid] = ["ANALYSIS-ERROR"]
     finally:
         shutil.rmtree(tmp, ignore_errors=True)
-    own = meta.get("property", sid.split("-")[0])
+    own = meta.get("reassigned_to") or meta.get("property", sid.split("-")[0])
     row = {"id": sid, "property": own, "own_check_fires": own in fired and fired[own] != ["ANALYSIS-ERROR"],
            "own_rules": fired.get(own, []), "all": fired, "summary": meta.get("summary", "")[:160], "needs": meta.get("needs", "")[:200]}
     meta["checks_on_patched_copy"] = {"cmd": f"python3-vt tools/seeded_table.py", "fired": fired}
